@@ -24,6 +24,7 @@ import (
 	"syscall"
 	"time"
 
+	"github.com/thushan/olla/internal/adapter/balancer"
 	"github.com/thushan/olla/internal/core/constants"
 	"github.com/thushan/olla/internal/core/domain"
 	"github.com/thushan/olla/internal/core/ports"
@@ -385,6 +386,15 @@ func (s *zzStats) RecordConnection(ep *domain.Endpoint, d int) {
 	defer s.mu.Unlock()
 	s.conns[ep.Name] += d
 }
+func (s *zzStats) GetConnectionStats() map[string]int64 {
+	s.mu.Lock()
+	defer s.mu.Unlock()
+	out := map[string]int64{}
+	for k, v := range s.conns {
+		out[k] = int64(v)
+	}
+	return out
+}
 func (s *zzStats) RecordModelRequest(string, *domain.Endpoint, string, time.Duration, int64) {}
 func (s *zzStats) RecordModelError(string, *domain.Endpoint, string)                         {}
 func (s *zzStats) RecordModelTokens(string, int64, int64)                                    {}
@@ -426,8 +436,27 @@ func VerifEngine() {
 		world.known[u.Host] = true
 	}
 	disc := &zzDisc{healthy: append([]*domain.Endpoint{}, eps...)}
-	sel := &zzPick{inflight: map[string]int{}}
+	pick := &zzPick{inflight: map[string]int{}}
 	stats := &zzStats{success: map[string]int{}, errors: map[string]int{}, conns: map[string]int{}}
+	var sel domain.EndpointSelector = pick
+	if k := gosym.Param("SEL"); k > 0 {
+		// the real balancers, and candidates in any status (C03: only routable ones are contacted)
+		switch k {
+		case 1:
+			sel = balancer.NewRoundRobinSelector(stats)
+		case 2:
+			sel = balancer.NewPrioritySelector(stats)
+		default:
+			sel = balancer.NewLeastConnectionsSelector(stats)
+		}
+		statuses := []domain.EndpointStatus{domain.StatusHealthy, domain.StatusBusy, domain.StatusWarming, domain.StatusOffline, domain.StatusUnhealthy, domain.StatusUnknown}
+		for _, ep := range eps {
+			ep.Status = statuses[gosym.Choice("status", len(statuses))]
+			if k == 2 {
+				ep.Priority = 1 + gosym.Choice("priority", 2)
+			}
+		}
+	}
 	svc := zzNewEngine(disc, sel, stats, profile, world)
 	// engine-specific pre-state (olla: per-endpoint circuit breakers shaped by earlier requests)
 	zzPreState(svc, eps)
@@ -467,6 +496,18 @@ func VerifEngine() {
 		seen[a.host]++
 		if is(4) {
 			gosym.Assert(seen[a.host] == 1, "C04: each candidate is attempted at most once")
+		}
+		if is(3) {
+			var ep *domain.Endpoint
+			for _, e := range eps {
+				if e.URL.Host == a.host {
+					ep = e
+				}
+			}
+			gosym.Assert(ep != nil, "C03: only members of the candidate set are contacted")
+			if ep != nil {
+				gosym.Assert(ep.Status.IsRoutable(), "C03: only endpoints whose status is routable are contacted")
+			}
 		}
 		if is(1) {
 			gosym.Assert(a.method == "POST", "C01: the backend receives the client's method")
@@ -563,7 +604,7 @@ func VerifEngine() {
 	// ---------------------------------------------------------------- C19: gauges and counters
 	if is(19) {
 		for _, ep := range eps {
-			gosym.Assert(sel.inflight[ep.Name] == 0 && stats.conns[ep.Name] == 0, "C19: connection gauges return to zero")
+			gosym.Assert(pick.inflight[ep.Name] == 0 && stats.conns[ep.Name] == 0, "C19: connection gauges return to zero")
 			tried := seen[ep.URL.Host]
 			if zzOpened[ep.Name] {
 				// selected-but-skipped (open circuit): the engine may record the refusal as one failed
